@@ -98,6 +98,7 @@ def _rec_classes():
             self.seen_ = (numpy.array(X, copy=True), numpy.array(y, copy=True),
                           None if sample_weight is None else numpy.array(sample_weight, copy=True))
             self.mean_ = wmean(self.seen_[1].astype(float), self.seen_[2])
+            self.ref_ = (X, y, sample_weight)       # kept without copying, as kernel / lazy learners do
             return self
 
         def predict(self, X):
@@ -111,6 +112,7 @@ def _rec_classes():
             w = numpy.ones(len(y)) if sample_weight is None else self.seen_[2]
             cnt = numpy.array([w[self.seen_[1] == c].sum() + 1.0 + 0.01 * k for k, c in enumerate(self.classes_)])
             self.p_ = cnt / cnt.sum()
+            self.ref_ = (X, y, sample_weight)
             return self
 
         def predict_proba(self, X):
@@ -262,6 +264,14 @@ def _partition(case, bad):
                                     bad("classifier bucket does not borrow exactly one outside row per missing class", cond,
                                         "bucket classes %r borrowed %r %s" % (sorted(set(y[rows].tolist())), extra, desc))
                             by_bucket[c] = e
+                        for e_ in list(ests) + [model.mean_estimator_]:
+                            kept_, seen_ = getattr(e_, "ref_", None), getattr(e_, "seen_", None)
+                            if kept_ is None or seen_ is None:
+                                continue
+                            for a_, b_ in zip(kept_, seen_):
+                                if (a_ is None) != (b_ is None) or (a_ is not None and not numpy.array_equal(numpy.asarray(a_), b_)):
+                                    bad("training arrays handed to a local model were overwritten after its fit", cond, desc)
+                                    break
                         g = model.mean_estimator_
                         if not hasattr(g, "seen_") or len(g.seen_[1]) != n:
                             bad("global fallback model not trained on the whole training set", cond, desc)
